@@ -1,6 +1,35 @@
 HOOK_COMMITS = ["0367723"]
 
+_BCL_NOTE = ("bounded exhaustive within the stated lengths; token atoms are concretised by a small trusted table whose result is re-lexed "
+             "and compared; random bytes / fixture mutations / description re-flow are plain randomized testing outside the models")
 CHECKS = {
+    "C09": {
+        "text": "TLC explores spec/BclFmt.tla: the token-level parser machine run twice (parse, render as fmt.go does, re-parse) over every "
+                "pruned token sequence of <= 4 (thorough 5) tokens from 28 token atoms incl. multi-line and escape-bearing literal classes, "
+                "plus simulation; model laws OutputParses/MeaningPreserved/Idempotent are checked by TLC; every case is replayed on the real "
+                "parser.Fmt/ParseFile and the law (output parses, position-free trees and comments equal, Fmt(Fmt x)=Fmt x) is evaluated on the "
+                "real results; recorded parse outcomes are validated by TLC against BclParserTrace",
+        "design_ref": "DESIGN.md 5.2, 5.3, 6/C09", "note": _BCL_NOTE,
+        "technique": "TLA+ two-pass parser/formatter machine + TLC (exhaustive short token sequences, simulation), replay into Go, TLC trace validation",
+    },
+    "C11": {
+        "text": "TLC explores spec/BclLexer.tla (rune-level lexer machine, all inputs <= 3 symbols over 29 symbols and <= 4 (thorough 5-6) over "
+                "14 lexer-equivalence classes) and spec/BclParser.tla (token-level Walker + fragmentsToFile machine, all sequences <= 3 (thorough 4) "
+                "tokens over 21 types, pruned <= 5 (thorough 6), simulation), both fail-fast values, with model properties Progress, PosInBounds, "
+                "TreeXorDiagnostics, DiagPosValid, NodePosValid; every case is replayed on parser.ParseFile and the law (tree xor diagnostics, "
+                "no panic, termination, positions inside the input with start<=end, collect-all's first diagnostic = fail-fast's, HumanString) "
+                "is evaluated on the real results; real token streams / parse outcomes are validated by TLC against BclLexerTrace/BclParserTrace",
+        "design_ref": "DESIGN.md 5.1, 5.2, 6/C11", "note": _BCL_NOTE,
+        "technique": "TLA+ lexer and parser state machines with on-demand input + TLC, replay into Go, TLC trace validation",
+    },
+    "C19": {
+        "text": "spec/BclFmt.tla derives the editor edit list (fragment ranges, merge of fragments sharing a line, leading/gap edits) for every "
+                "explored token sequence and TLC checks EditsWellFormed on the model; every case is replayed on the real parser.FmtDiffs/Fmt "
+                "(no failure, ascending, disjoint, start<=end<=lines, applied text = Fmt up to trailing blank lines); the recorded edit lists are "
+                "fed to the TLA+ editor machine BclEditTrace which applies them step by step checking the range invariants and the final text",
+        "design_ref": "DESIGN.md 5.3, 6/C19", "note": _BCL_NOTE,
+        "technique": "TLA+ formatter/edit-list model + TLC, replay into Go, TLA+ editor machine validating recorded edits",
+    },
     "C10": {
         "text": "TLC checks spec/SchemaCache.tla (one action per critical section of SchemaCache.Schema/refTo/referencePackage and the "
                 "recursive build) exhaustively for 2 (thorough: 3) goroutines over shared, recursive and cross-package type graphs: mutual "
